@@ -36,6 +36,17 @@ Qed.
 Lemma no_reset_dec : forall o, {o = OReset} + {o <> OReset}.
 Proof. destruct o; (left; reflexivity) || (right; discriminate). Qed.
 
+(* the starting theta never exceeds MAX_THETA: (2^63 as f64 * p) as u64 <= 2^63 - 1 for every f64 p < 1 (Flocq) *)
+Lemma theta0_le_max : forall c, theta0 c <= MAX_THETA.
+Proof.
+  intros c. unfold theta0, starting_theta.
+  destruct (PrimFloat.ltb (float_of_bits (c_pbits c)) 1%float) eqn:E; [|lia].
+  pose proof (starting_theta_le (float_of_bits (c_pbits c)) E) as H.
+  change (float_of_Z63 (Nz MAX_THETA)) with M63. change U64_MAX with 18446744073709551615%Z.
+  change (lit Gen.GenTheta.LIT_starting_theta_from_sampling_probability 0) with 1.
+  change MAX_THETA with 9223372036854775807. unfold zN. lia.
+Qed.
+
 Section Kmv.
 Variable reorder : reorder_t.
 Hypothesis reorder_perm : reorder_ok reorder.
